@@ -1,5 +1,6 @@
 import Driver.Srv
 import Driver.Rd
+import Driver.Wr
 /-! `driver <suite>`: reads a transcript on stdin, prints the model's `obs` line for every `op` line. -/
 
 partial def loopSrv (h : IO.FS.Stream) (out : IO.FS.Stream) (st : Driver.Srv.St) : IO Unit := do
@@ -20,10 +21,19 @@ partial def loopRd (h : IO.FS.Stream) (out : IO.FS.Stream) (st : Driver.Rd.St) :
   | none => pure ()
   loopRd h out st'
 
+partial def loopStateless (h : IO.FS.Stream) (out : IO.FS.Stream) (f : String → Option String) : IO Unit := do
+  let line ← h.getLine
+  if line.isEmpty then return ()
+  match f line with
+  | some l => out.putStrLn l
+  | none => pure ()
+  loopStateless h out f
+
 def main (args : List String) : IO UInt32 := do
   let stdin ← IO.getStdin
   let stdout ← IO.getStdout
   match args with
   | ["srv"] => loopSrv stdin stdout {}; return 0
   | ["reader"] => loopRd stdin stdout {}; return 0
+  | ["writer"] => loopStateless stdin stdout Driver.Wr.handle; return 0
   | _ => IO.eprintln "usage: driver <suite>"; return 2
